@@ -375,6 +375,9 @@ func (e *Exec) mapUpdate(mv, k, v Value) {
 	if m == nil {
 		e.goPanicf("assignment to entry in nil map")
 	}
+	if m.Pre && !e.initMode {
+		e.PreWrites[m.Name] = true
+	}
 	if i := e.mapFind(m, k); i >= 0 {
 		m.Vals[i] = v
 		return
@@ -671,6 +674,10 @@ func (e *Exec) poisonFor(x *ssa.Call, why string) Value {
 // minTerm returns min(a,b), simplified when one side provably dominates on
 // this path (two cheap queries, no fork).
 func (e *Exec) minTerm(a, b *smt.Term) *smt.Term {
+	if e.reason == "" {
+		e.reason = "min"
+		defer func() { e.reason = "" }()
+	}
 	lt := smt.ULt(a, b)
 	if lt.IsTrue() {
 		return a
